@@ -57,6 +57,20 @@ theorem validChain_link {V : Versions} {hs : List Hdr} (hc : ValidChain V hs) :
     | zero => simp at h1 h2; subst h1; subst h2; exact hl
     | succ j => exact ih j c' p' (by simpa using h1) (by simpa using h2)
 
+/-- Every non-empty suffix (older part) of a `ValidChain` is a `ValidChain`. -/
+theorem validChain_drop {V : Versions} {hs : List Hdr} (hc : ValidChain V hs) :
+    ∀ k, k < hs.length → ValidChain V (hs.drop k) := by
+  induction hc with
+  | start h a b c =>
+    intro k hk
+    have : k = 0 := by simpa using hk
+    subst this; exact ValidChain.start h a b c
+  | step c p rest hprev hl ih =>
+    intro k hk
+    cases k with
+    | zero => exact ValidChain.step c p rest hprev hl
+    | succ j => simpa using ih j (by simpa using hk)
+
 /-- A `ValidChain` (newest first) stored oldest first as the canonical index is `CanonLinked`. -/
 theorem canonLinked_of_validChain {V : Versions} {hs : List Hdr} (hc : ValidChain V hs) :
     CanonLinked V (fun n => hs.reverse[n]?) := by
